@@ -190,6 +190,98 @@ def run(ctx):
                "the blocking pop on the global queue must be reached only after the worker's own local queue was found "
                "empty (a worker sleeping on the global queue with tasks in its local queue strands them)")
 
+    # ---------------------------------------------------------------- R3e/R3f a stolen task is dispatched before the next pop
+    from bsa.graph import cond_atoms
+    POPRE = re.compile(r"^babylon::ConcurrentBoundedQueue<.*>::(try_)?pop$")
+    n3e = 0
+    for fn in workers:
+        inst = L.short(fn)
+        ig = IG(fn, inline=nin)
+        live = ig.live_nodes()
+        sweeps = [n for n in L.call_nodes(ig, callee_re=r"^babylon::(EnumerableThreadLocal|ConcurrentVector)<.*>::for_each$", live=live)]
+        for fe in sweeps:
+            lam = L.lambda_of(ig, ig.rarg(fe, 0))
+            if lam is None or not lam.has_cfg():
+                continue
+            lig = IG(lam, inline=nin)
+            llive = lig.live_nodes()
+            lpops = [n for n in lig.ev_nodes() if n.id in llive and n.ev["e"] == "call" and POPRE.match(n.ev.get("callee", "") or "") and
+                     n.ev.get("args") and strip_cast(n.ev["args"][0]).get("k") == "cap"]
+            if not lpops:
+                continue        # e.g. the balance sweep: pops hand the task to a callback, nothing is kept across invocations
+            n3e += 1
+            pid = set(n.id for n in lpops)
+            target = set(strip_cast(n.ev["args"][0]).get("n") for n in lpops)
+            # captured flags that carry a pop's result: every write is the result itself, or `true` on a path that only a
+            # successful pop takes
+            direct = []
+            for n in lig.nodes:
+                for m, lab in n.succ:
+                    if lab is None or lab.cond is None or lab.pol is None:
+                        continue
+                    atom, pol = L.bool_atom(lig.resolve(lab.cond, lab.frame), lab.pol)
+                    e_ = lig.ev_of(strip_cast(atom)) if isinstance(strip_cast(atom), dict) and strip_cast(atom).get("k") == "e" else None
+                    if e_ is not None and e_.id in pid and pol:
+                        direct.append((n.id, m.id))
+            no_success = lig.reach([lig.entry], removed_edges=direct)
+            writes = {}
+            for n in lig.ev_nodes():
+                if n.id in llive and n.ev["e"] == "asg" and strip_cast(n.ev.get("lhs")).get("k") == "cap":
+                    rhs = strip_cast(lig.resolve(n.ev.get("rhs"), n.frame)) if n.ev.get("rhs") is not None else None
+                    r_ = lig.ev_of(rhs) if isinstance(rhs, dict) and rhs.get("k") == "e" else None
+                    good = (r_ is not None and r_.id in pid) or \
+                        (const_val(rhs) == 1 and n.ev.get("op") == "=" and n.id not in no_success)
+                    writes.setdefault(strip_cast(n.ev["lhs"]).get("n"), []).append(good)
+            flags = set(k for k, v in writes.items() if all(v))
+            other_writes = False
+
+            def is_result(atom):
+                atom = strip_cast(atom)
+                if isinstance(atom, dict) and atom.get("k") == "cap" and atom.get("n") in flags and not other_writes:
+                    return True
+                e_ = lig.ev_of(atom) if isinstance(atom, dict) and atom.get("k") == "e" else None
+                return e_ is not None and e_.id in pid
+            succ_t, fail_e = [], []
+            for n in lig.nodes:
+                for m, lab in n.succ:
+                    if lab is None or lab.cond is None or lab.pol is None:
+                        continue
+                    atom, pol = L.bool_atom(lig.resolve(lab.cond, lab.frame), lab.pol)
+                    if is_result(atom):
+                        (succ_t if pol else fail_e).append((n, m))
+            fe_ids = [(a.id, b.id) for a, b in fail_e]
+            # assume a pop succeeded: follow every path from it except the ones taken when its result (or its flag) is false
+            reach = lig.reach([m for n in lpops for m, _ in n.succ if (n.id, m.id) not in set(fe_ids)], removed_edges=fe_ids)
+            if lig.exit.id in reach:
+                # the enumerator invokes its callback once per block of the underlying vector: the next invocation starts here
+                reach = set(reach) | set(lig.reach([lig.entry], removed_edges=fe_ids))
+            again = [n for n in lpops if n.id in reach]
+            ctx.ob("C07.R3e", "%s sweep@%s" % (inst, fe.line), not again, fe.where,
+                   "for_each invokes its callback once per block of the thread-local vector: after a successful pop into '%s' "
+                   "another pop into it is reachable (line %s) before the worker dispatched the first task - the first task is "
+                   "overwritten and never runs" % ("/".join(sorted(target)), again[0].line if again else "?"),
+                   site="%s@steal-sweep" % fn.name)
+            # R3f: back in the worker, a further pop into the same variable is taken only when the sweep's flag says it failed
+            wp = [n for n in ig.ev_nodes() if n.id in live and n.ev["e"] == "call" and POPRE.match(n.ev.get("callee", "") or "") and
+                  n.frame.owner_id == 0 and n.ev.get("args") and strip_cast(n.ev["args"][0]).get("n") in target]
+            sw = [ig.frames[0].block_node[bid] for bid, b in fn.blocks.items() if b.get("term") == "SwitchStmt"]
+            guard = []
+            for n in ig.nodes:
+                for m, lab in n.succ:
+                    if lab is None or lab.cond is None or lab.pol is None:
+                        continue
+                    atom, pol = L.bool_atom(ig.resolve(lab.cond, lab.frame), lab.pol)
+                    atom = strip_cast(atom)
+                    if isinstance(atom, dict) and atom.get("k") == "l" and atom.get("n") in flags and pol is False:
+                        guard.append((n.id, m.id))
+            r2 = ig.reach([m for m, _ in fe.succ], removed=sw, removed_edges=guard)
+            bad = [n for n in wp if n.id in r2]
+            ctx.ob("C07.R3f", "%s sweep@%s" % (inst, fe.line), bool(flags) and not other_writes and not bad, fe.where,
+                   "after the steal sweep a pop into '%s' (line %s) is reachable without the sweep's success flag being false: a "
+                   "stolen task is overwritten by the next task of the global queue" % ("/".join(sorted(target)), bad[0].line if bad else "?"),
+                   site="%s@after-steal-sweep" % fn.name)
+    ctx.floor("C07.R3e", n3e, 1, "steal sweeps that keep a popped task across callback invocations")
+
     # ---------------------------------------------------------------- R4 execute / submit
     n4 = 0
     for fn in fb.find(pred=lambda f: f.record == "babylon::Executor" and f.name == "execute" and f.has_cfg() and not f.d.get("coroutine")):
